@@ -37,13 +37,14 @@ func main() {
 	}
 	r := evidence.New("C05", "exploration")
 	r.Rule("sequential case = (byte string b: empty | 1–64 B | ≤5 KB | buffer-edge sizes | 100–300 KB | >1 MiB | small image-manifest JSON; " +
-		"descriptor class ∈ {exact, wrong-digest, short, short-prefix-digest, long, long-padded-digest, zero, zero-empty-digest, negative, malformed (15 shapes), unsupported (7 algorithms), sha512, sha512-bad, sha384, sha384-bad}; " +
+		"descriptor class ∈ {exact, wrong-digest, short, short-prefix-digest, long, long-padded-digest, zero, zero-empty-digest, negative, malformed (19 shapes incl. right-length path-shaped ones), unsupported (7 algorithms), sha512, sha512-bad, sha384, sha384-bad}; " +
 		"reader ρ = chunking {one, 1, 7, 4096, 1 MiB+1, random, bytes.Reader, bytes.Buffer} × (0,nil) reads × (n,EOF) on last chunk × injected error before/at/after Size (alone or with the last chunk) × stream {as is, truncated, extended, one bit flipped, empty}; " +
 		"store kind ∈ {memory store, cas.Memory behind LimitStorage, cas.Proxy with memory / size-limited / OCI cache, oci.Store, oci.Storage, file store named file, file store fallback, ReadAll, FetchAll, VerifyReader Read*/Verify plans, ioutil.CopyBuffer}), " +
 		"for the file store's named file additionally a file already present at the name's path (none | longer | shorter | equal length | empty; a fresh store is opened on the directory; after an accepted push the named and the plain descriptor must fetch exactly the pushed bytes); " +
 		"after an accepted push FetchAll with the same digest and a larger / smaller / zero size must fail on the store and on fs.FS / tar read-only views of an OCI layout; FetchAll is also driven over *os.File readers; injected errors are sticky or one-shot; " +
 		"every reader works on a private copy of the stream (hostile reader, bytes.Reader or an unwrapped *bytes.Buffer) which the harness overwrites / Resets and refills as soon as the library call has returned, so stored and handed-back bytes are re-fetched and compared after the caller reused its buffers (also for a blob pushed earlier); " +
 		"after every push FetchAll is also called on every view with descriptors embedding content in Data (matching, one bit flipped, one byte short / long): data handed back without error must have the descriptor's digest and size; " +
+		"after every push, descriptors whose digest is malformed but of the right length for a registered algorithm, with an encoded part that is a relative path to index.json / oci-layout / a stored blob, are probed on every view (Exists false, Fetch and FetchAll fail) and pushed (must fail, blobs/ unchanged); " +
 		"followed on push stores by good-after-refused or corrupt-after-accepted pushes; oracle predicates prefixOK/exact/trailing are computed from (stream, fault offset, digest string, size) with the standard library's hashes. " +
 		"Concurrent case = 0–3 good, 1–4 bad (corrupt, truncated, failing mid-way), 0–1 trailing pushers of one digest on one store plus 2 re-hashing fetchers. " +
 		"distinct = (descriptor class, primary reader class, store kind) resp. (store, #good, bad kinds, size class); non-trivial = sequential: every case except exact descriptor + unmodified stream + no fault; concurrent: at least two pushes overlapped (event order)")
